@@ -1,1 +1,1 @@
-import XV.Props.C09
+import XV.Props.C10
